@@ -371,7 +371,8 @@ func runC14(c *Ctx, r *Report, tier string) {
 					if l.Pos {
 						return false
 					}
-					return strings.HasPrefix(l.Term, "nonempty(call:strings.TrimSpace(after(") || strings.HasPrefix(l.Term, "eq(34, idx(call:strings.TrimSpace(after(")
+					return strings.HasPrefix(l.Term, "nonempty(call:strings.TrimSpace(after(") || strings.HasPrefix(l.Term, "eq(34, idx(call:strings.TrimSpace(after(") ||
+						(strings.HasPrefix(l.Term, "call:strings.HasPrefix(call:strings.TrimSpace(after(") && strings.HasSuffix(l.Term, `, "\"")`))
 				}
 				q := &PathQ{c: c, Fn: ri, CutLit: noQuote, CutIn: c.isCallTo("strconv.Unquote")}
 				path, found := q.Reach(Site{mainLoop.Header, 0}, 0, isInstr(in))
